@@ -112,10 +112,15 @@ class AbstractExcelInPython(ABC):
     @staticmethod
     def _to_number(operand: Any) -> int | float:
         # int() would cut off the fractional part of a float operand (1.5 > 1.2 must stay true)
+        if isinstance(operand, str) and re.fullmatch(r'\s*[+-]?(\d+\.?\d*|\.\d+)([eE][+-]?\d+)?\s*', operand, re.ASCII) is None:
+            # a text counts as a number only in the spellings Excel reads as one - not 1_0, digits of other scripts, inf or nan
+            raise ValueError('not a number: ' + operand)
         return operand if isinstance(operand, float) else int(operand)
 
     @staticmethod
     def _to_float(operand: Any) -> float:
+        if isinstance(operand, str) and re.fullmatch(r'\s*[+-]?(\d+\.?\d*|\.\d+)([eE][+-]?\d+)?\s*', operand, re.ASCII) is None:
+            raise ValueError('not a number: ' + operand)
         number = float(operand)
         # float() also reads the texts 'nan' and 'inf'; in Excel they are plain texts, and NaN breaks every comparison law
         if isinstance(operand, str) and (number != number or number in (float('inf'), float('-inf'))):
@@ -821,7 +826,7 @@ class AbstractExcelInPython(ABC):
     @staticmethod
     def _criterion_number(text: Any) -> int | float | None:
         # the number a criterion text (or a numeric-looking cell text) denotes, None when it is not a number
-        if not isinstance(text, str):
+        if not isinstance(text, str) or re.fullmatch(r'\s*[+-]?(\d+\.?\d*|\.\d+)([eE][+-]?\d+)?\s*', text, re.ASCII) is None:
             return None
 
         try:
@@ -1050,8 +1055,11 @@ class AbstractExcelInPython(ABC):
         text = text.strip()
 
         # Попытка преобразовать строку в целое число
+        # (only the spellings Excel reads as a number: int() and float() also accept 1_0, digits of other scripts, inf and nan)
+        plain = re.fullmatch(r'\s*[+-]?(\d+\.?\d*|\.\d+)([eE][+-]?\d+)?\s*', text.replace(",", "."), re.ASCII) is not None
         try:
-            return int(text)
+            if plain:
+                return int(text)
         except ValueError:
             pass
 
@@ -1059,7 +1067,8 @@ class AbstractExcelInPython(ABC):
         try:
             # Заменяем запятую на точку, если используется десятичная запятая
             text = text.replace(",", ".")
-            return float(text)
+            if plain:
+                return float(text)
         except ValueError:
             pass
 
